@@ -15,7 +15,10 @@ RULE = {
           "on the real library and mirrored on the exact reference model; every choice derives from "
           "sha256(VERIF_SEED:property:run). A run is non-trivial if at least two state-changing events succeeded; "
           "distinct = distinct coverage signatures, a signature being the sorted set of event tuples "
-          "(op, pairing form, endpoint kinds, same-plate/overlap, unit class, feasibility class, outcome, staleness) of the run."),
+          "(op, pairing form, endpoint kinds, same-plate/overlap, unit class, feasibility class, outcome, staleness) of the run. "
+          "Some runs are followed, inside the same run, by further sessions that the probes count: a second session with the same "
+          "substance names and other properties (20 %), the same script under other names (alias, 12 %), the same script without "
+          "observer calls (blind, 8 %); their violations count for the run."),
 }
 
 COMPONENTS = {
